@@ -135,7 +135,7 @@ fn c11_unitset_scale_to_power_of_unit_is_none() {
 // K-snippet: the head of UnitSet::scale_to (which branch is taken), with the
 // compound branch — `quote.dimension()` builds a BTreeMap, out of CBMC's
 // reach — cut off and replaced by the marker `Some(-1.0)`.
-//@range file=rsass/src/value/unitset.rs impl="impl UnitSet" fn=scale_to until="let quote = self / other;"
+//@range file=rsass/src/value/unitset.rs impl="impl UnitSet" fn=scale_to until="let quote ="
 //@  header: fn snippet_scale_to_head(this: &UnitSet, other: &UnitSet) -> Option<f64>
 //@  subst: self => this
 //@  tail: Some(-1.0) }
